@@ -1975,6 +1975,41 @@ bail:
 	return 0;
 }
 
+/**
+ * Check if the parity recorded in the content file is still found at the same
+ * position, comparing the recorded sizes of the splits with the present ones.
+ */
+static int parity_layout_is_kept(const data_off_t* recorded_size, const struct snapraid_parity* parity, data_off_t size)
+{
+	data_off_t recorded_end;
+	data_off_t end;
+	unsigned s;
+
+	/* limit the check at the parity that was recorded */
+	recorded_end = 0;
+	for (s = 0; s < parity->split_mac; ++s) {
+		/* if the size is not recorded, like with old content files, any layout is fine */
+		if (recorded_size[s] == PARITY_SIZE_INVALID)
+			return 1;
+		recorded_end += recorded_size[s];
+	}
+	if (size > recorded_end)
+		size = recorded_end;
+
+	recorded_end = 0;
+	end = 0;
+	for (s = 0; s < parity->split_mac; ++s) {
+		recorded_end += recorded_size[s];
+		end += parity->split_map[s].size;
+
+		/* if the split ends in a different place before the end of the used parity */
+		if (recorded_end != end && (recorded_end < size || end < size))
+			return 0;
+	}
+
+	return 1;
+}
+
 int state_check(struct snapraid_state* state, int fix, block_off_t blockstart, block_off_t blockcount)
 {
 	block_off_t blockmax;
@@ -1984,6 +2019,8 @@ int state_check(struct snapraid_state* state, int fix, block_off_t blockstart, b
 	struct snapraid_parity_handle* parity_ptr[LEV_MAX];
 	unsigned error;
 	unsigned l;
+	unsigned s;
+	data_off_t recorded_size[SPLIT_MAX];
 
 	msg_progress("Initializing...\n");
 
@@ -2032,10 +2069,24 @@ int state_check(struct snapraid_state* state, int fix, block_off_t blockstart, b
 					/* LCOV_EXCL_STOP */
 				}
 
+				/* save the recorded size of the splits */
+				for (s = 0; s < state->parity[l].split_mac; ++s)
+					recorded_size[s] = state->parity[l].split_map[s].size;
+
 				ret = parity_chsize(parity_ptr[l], &state->parity[l], 0, size, state->block_size, state->opt.skip_fallocate, state->opt.skip_space_holder);
 				if (ret == -1) {
 					/* LCOV_EXCL_START */
 					log_fatal("WARNING! Without an accessible %s file, it isn't possible to sync.\n", lev_name(l));
+					exit(EXIT_FAILURE);
+					/* LCOV_EXCL_STOP */
+				}
+
+				/* the parity must be restored in the same position recorded in the content file, */
+				/* because fix doesn't save it, and the next commands are going to search it there */
+				if (!parity_layout_is_kept(recorded_size, &state->parity[l], size)) {
+					/* LCOV_EXCL_START */
+					log_fatal("Failed restoring the %s files to the recorded size.\n", lev_name(l));
+					log_fatal("WARNING! Without enough space for the %s files, it isn't possible to fix.\n", lev_name(l));
 					exit(EXIT_FAILURE);
 					/* LCOV_EXCL_STOP */
 				}
